@@ -4,5 +4,5 @@ From V.c18 Require Import C18Model C18EntryModel.
 Require Import ExtrOcamlBasic.
 Separate Extraction
   asc adts encode_asc decode_asc canonical asc_roundtrip_ok
-  new_adts adts_frequency encode_adts decode_adts adts_canonical no_sync_in adts_roundtrip_ok
+  new_adts adts_frequency encode_adts decode_adts adts_canonical no_sync_in first_sync adts_roundtrip_ok
   set_aac_descriptor decode_entry entry_asc.
